@@ -184,6 +184,7 @@ theorem step_inv (s : PoolSt) (st : PStep) (h : PoolInv s) : PoolInv (Pool.step 
       rcases hsp2 ha with h | h
       · left; simp [replaceFirst_length]; omega
       · right; simpa [replaceFirst_length] using h
+  | idleGap => exact ⟨hb, hbound, hsp1, hsp2⟩
   | drop =>
     refine ⟨?_, hbound, ?_, ?_⟩
     · simp only [Pool.queuedJobs] at hb ⊢
